@@ -523,3 +523,12 @@ package pbft
 //@   atcall AddVote assert [only-stored-precommits-are-replayed-into-it] calls(NewVoteSet) == 1
 //@   onwrite RoundState.LastCommit assert [installed-only-with-a-two-thirds-majority] calls(HasTwoThirdsMajority) == 1 && calls(NewVoteSet) == 1
 //@   loop 0 invariant calls(NewVoteSet) == 1 && calls(LoadSeenCommit) == 1 && calls(HasTwoThirdsMajority) == 0
+
+// proposing (C04): a validator that is locked proposes its locked block and nothing else; only an unlocked one builds a new block
+//@ func (*ConsensusState).defaultDecideProposal
+//@   props C04 C01
+//@   requires wfCS(cs)
+//@   nosafety
+//@   atcall createProposalBlock assert [new-block-only-when-not-locked] cs.RoundState.LockedBlock == nil
+//@   atcall NewProposal assert [locked-validator-reproposes-its-locked-block] (old(cs.RoundState.LockedBlock) != nil ==> calls(createProposalBlock) == 0 && calls(Header) == 1) && arg_height == height && arg_round == round
+//@   atcall Header assert [proposal-names-the-parts-of-the-chosen-block] old(cs.RoundState.LockedBlock) != nil ==> arg_ps == old(cs.RoundState.LockedBlockParts)
